@@ -1389,6 +1389,7 @@ fn analyse(
         violations.push((format!("after restart at {} (op {op_index}): {d}", s.name), class));
     }
     // ---- restart + follow-up operations
+    let fids_before: HashSet<String> = truth_snap.iter().flatten().filter(|b| b.ok).map(|b| b.id.clone()).collect();
     let more = followups(nthreads0, w.sess_ids.len(), bulk);
     let t_follow = Instant::now();
     let mut w2 = World::open(root, threads0.clone(), w.last_msg.clone(), w.sess_ids.clone());
@@ -1511,6 +1512,27 @@ fn analyse(
         }
     }
     snapshot_oracle(root, idx, &format!("after a crash at {} (op {op_index}), restart and follow-ups", s.name), &mut violations);
+    // ---- the first append after a restart reconciles the thread's full sidecar with the log (load_next_seq_for, /repo
+    // 0b0d2b0): after the follow-ups the sidecar of every thread that got an append IS the thread's stream
+    for (t, id) in threads1.iter().enumerate() {
+        if !flat.iter().any(|b| b.ok && b.continuity && b.stream == *id && !fids_before.contains(&b.id)) {
+            continue;
+        }
+        let want: Vec<(u64, &str)> = flat.iter().filter(|b| b.ok && b.continuity && b.stream == *id).map(|b| (b.seq, b.id.as_str())).collect();
+        let side = read_bodies(&side_path(root, id));
+        let have: Vec<(u64, &str)> = side.iter().flatten().map(|b| (b.seq, b.id.as_str())).collect();
+        if have != want && bad_lines == 0 && bad_streams.is_empty() {
+            violations.push((
+                format!(
+                    "after a crash at {} (op {op_index}), restart and follow-up appends the full sidecar of thread#{t} is not the thread's stream in the log (sidecar seqs {:?}, log holds {} frames): the restart's first append did not reconcile it",
+                    s.name,
+                    have.iter().map(|x| x.0).collect::<Vec<_>>(),
+                    want.len()
+                ),
+                "first_append_leaves_full_sidecar_off_the_log".into(),
+            ));
+        }
+    }
     // ---- model case
     for r in &more_recs {
         obs.push(r.ok as u64);
@@ -1567,6 +1589,7 @@ fn analyse(
 /// 0,1,2,.. in file order, replay_validated passes, every acknowledged frame exactly once, replay_events of a
 /// fresh store = the log's stream for every thread that got an append.
 #[derive(Clone, Copy, Debug, PartialEq)]
+#[allow(dead_code)]
 enum First {
     RunSpawned,
     RunEnded,
